@@ -9,7 +9,7 @@ TECHNIQUE = "deviation-bounded exhaustive enumeration of constructor argument tu
 RULE = ("42 command classes x every opcode-table entry under which a command set offers the command x all argument tuples that "
         "deviate from the baseline (required arguments 0, optional arguments omitted) in at most k dimensions (k=2 quick, 3 thorough); "
         "a dimension is one multi-bit argument ranging over its whole alphabet (all values up to 4 bits, else 0/1/max/max-1/every "
-        "2^i/every max-2^i/A5../5A..) or the full product of all 1-bit arguments (each omitted/0/1). Non-trivial = at least one "
+        "2^i/every max-2^i/A5../5A..) or the full product of all 1-bit arguments (each omitted/0/1); tuples with at most one deviation are also passed positionally (signature order) and as int-subclass instances (bool for 0/1) and must give the same CDB. Non-trivial = at least one "
         "deviation; distinct = distinct (class, table, tuple).")
 ASSUMPTIONS = [
     "oracle: vf/spec/cdb.py (Appendix A of DESIGN.md), whole-CDB comparison with the spec encoder: length, opcode, service action, every field, every other bit zero",
@@ -132,8 +132,57 @@ def run_case(case, obs=None):
     return out
 
 
+class _I(int):
+    """an int subclass (as IntEnum members, numpy-free counters, ... are)"""
+
+
+def _wrap(v):
+    if type(v) is int:
+        return bool(v) if v in (0, 1) else _I(v)
+    return v
+
+
+def conventions(name, st, key, point):
+    """the same request through other calling conventions must give the same CDB: positional arguments in signature order,
+    and integer arguments that are instances of int subclasses (bool for 0/1)"""
+    import inspect
+    cls = CS.get_class(name)
+    op = CS.get_opcode(st, key)
+    kw = CS.build_kwargs(name, point, ata_blocksize=512 if name in S.ATA_LBA_BYTES else None)
+    try:
+        ref = bytes(cls(op, **kw).cdb)
+    except Exception:   # noqa: BLE001 - judged by run_case
+        return []
+    out = []
+    params = [p for p in list(inspect.signature(cls.__init__).parameters.values())[2:] if p.kind == p.POSITIONAL_OR_KEYWORD]
+    names = [p.name for p in params]
+    variants = [("int-subclass values", [], {k: _wrap(v) for k, v in kw.items()})]
+    if kw and all(k in names for k in kw):
+        last = max(names.index(k) for k in kw)
+        args = []
+        for p in params[:last + 1]:
+            if p.name in kw:
+                args.append(kw[p.name])
+            elif p.default is not p.empty:
+                args.append(p.default)
+            else:
+                args = None
+                break
+        if args is not None:
+            variants.append(("positional arguments", args, {}))
+    for label, a, k in variants:
+        try:
+            got = bytes(cls(op, *a, **k).cdb)
+        except Exception as e:   # noqa: BLE001
+            got = "raised %s: %s" % (type(e).__name__, e)
+        if got != ref:
+            out.append(("convention/%s" % name, "%s(%r) with %s gives %s, with plain keyword arguments %s"
+                        % (name, point, label, got.hex() if isinstance(got, bytes) else got, ref.hex())))
+    return out
+
+
 def replay(case):
-    return run_case(case)
+    return run_case(case) + (conventions(*case[:4]) if len(case) == 4 else [])
 
 
 def run_partition(part, tier, seed):
@@ -167,6 +216,8 @@ def run_partition(part, tier, seed):
         acc.case(case, nontrivial=r > 0, key=(name, st, key, wide, tuple(sorted(point.items()))))
         obs = []
         v = run_case(case, obs)
+        if not wide and r <= 1:
+            v += conventions(name, st, key, point)
         # the command built just before must still carry its own CDB (no scratch buffer shared between commands)
         if prev is not None and bytes(prev[0].cdb) != prev[1]:
             v.append(("earlier_command_changed/%s" % name, "%s(%r): building it changed the CDB of the %s built before it (%s -> %s)"
